@@ -19,7 +19,7 @@ OBLIGATIONS = [
     "C07/P_nonvacuous.v",
 ]
 REFUTATIONS = []
-PROOF_MODULES = []   # compiled by hand until listed in coq/_CoqProject (see the report)
+PROOF_MODULES = A.PROOF_MODULES
 
 POINTS = [Fraction(3, 2), Fraction(-5, 3), Fraction(7, 4), Fraction(2, 7), Fraction(-1, 3), Fraction(11, 5), Fraction(-9, 4), Fraction(5, 7)]
 
